@@ -50,7 +50,7 @@ def semtool_ops(base_req, ops, chunk=4000, timeout=120):
 
     def go(lo, hi):
         req = dict(base_req, ops=ops[lo:hi])
-        r = semtool(req, timeout=timeout if hi - lo > 1 else 20)
+        r = semtool(req, timeout=timeout if hi - lo > 1 else 90)   # a single question gets ample time: load must not look like divergence
         if r.get("outcome") == "ok":
             if r.get("errors"):
                 conv_errors.update(r["errors"])
